@@ -164,7 +164,7 @@ func init() {
 	Register(&Check{
 		ID: "C01", Level: "exploration", Tech: "deterministic simulation: seeded histories + restart (reopen/rebuild) injection, differential observation",
 		Rule:      "seeded sequential histories (steered by a reference model, swarm weights, adversarial name universes, pipeline/record-size swarm) with reopen/rebuild restarts injected as operations; after every call the live tree is compared with a reopened and a rebuilt instance; non-trivial = at least 2 successful mutating calls; distinct by (op-kind sequence, config, name style)",
-		QuickRuns: 2000, QuickSecs: 60, ThoroughRuns: 40000, ThoroughSecs: 1500,
+		QuickRuns: 4000, QuickSecs: 60, ThoroughRuns: 40000, ThoroughSecs: 1500,
 		Assumptions: []string{"observation through the afero API (Open+Readdir walk, Stat, full reads, Readlink)", "SQLite's own durability is trusted; the index file is copied at call boundaries"},
 		Gen: func(r *rand.Rand, tier string, relax Relax) *Case {
 			c := &Case{Cfg: GenConfig(r, 0.5), P: map[string]int64{}, S: map[string]string{}}
@@ -207,7 +207,7 @@ func init() {
 	Register(&Check{
 		ID: "C05", Level: "exploration", Tech: "deterministic simulation: drive-seam monitor (prefix/append-only per write) + independent tar scan after every call",
 		Rule:      "seeded sequential histories incl. failing calls; after every call: previous tape is a prefix, rejected calls append nothing, every single drive write lands at end-of-file, length is a multiple of 512, archive/tar iterates all records (restart after trailers); non-trivial = tape grew at least twice; distinct by (op-kind sequence, config, name style)",
-		QuickRuns: 3000, QuickSecs: 50, ThoroughRuns: 60000, ThoroughSecs: 1200,
+		QuickRuns: 8000, QuickSecs: 50, ThoroughRuns: 60000, ThoroughSecs: 1200,
 		Assumptions: []string{"the drive is a regular file (tape devices are not simulated)", "GNU tar cross-check only in the thorough tier"},
 		Gen: func(r *rand.Rand, tier string, relax Relax) *Case {
 			c := &Case{Cfg: GenConfig(r, 0.5), P: map[string]int64{}, S: map[string]string{}}
@@ -219,6 +219,12 @@ func init() {
 			ops, u := GenHistory(r, o)
 			c.Ops = addRestarts(r, ops, 0.05)
 			c.S["style"] = u.Style
+			if r.Float64() < 0.3 {
+				// the drive manager of the first instance is created with overwrite=true (as
+				// `operation initialize` / `archive --overwrite` do): only its FIRST writer may
+				// start the tape from scratch, every later one appends
+				c.P["overwrite"] = 1
+			}
 			if r.Float64() < 0.25 {
 				// fault configuration: even a call that fails part-way never changes a
 				// byte that is already on the tape (only the append-only clauses are judged)
@@ -242,7 +248,7 @@ func init() {
 			return c
 		},
 		Eval: func(t *testing.T, c *Case, st *Stats, relax Relax) *Violation {
-			return RunSeq(t, c, st, relax, seqOpts{}, func(x *SeqCtx) *Violation {
+			return RunSeq(t, c, st, relax, seqOpts{Open: OpenOpts{Overwrite: c.Param("overwrite", 0) == 1}}, func(x *SeqCtx) *Violation {
 				faulty := len(c.Faults) > 0
 				if faulty {
 					x.W.Dev.ResetCounts()
@@ -299,7 +305,7 @@ func init() {
 	Register(&Check{
 		ID: "C13", Level: "exploration", Tech: "deterministic simulation: invariant monitor over namespace after every call (live rows vs walk vs listings vs lookups)",
 		Rule:      "seeded sequential histories (deep MkdirAll, creation under regular files, many children, adversarial names); after every call: live index rows == entries reached by walking, every entry has a live directory parent, Readdir/Readdirnames(n) for n in {-1,0,1,2,3,k,k+1} return only children, each once, all when n<=0, at most n otherwise, listed entries stat/open with matching kind and size; non-trivial = at least 3 live entries; distinct by (op-kind sequence, name style)",
-		QuickRuns: 900, QuickSecs: 50, ThoroughRuns: 80000, ThoroughSecs: 1200,
+		QuickRuns: 1800, QuickSecs: 50, ThoroughRuns: 80000, ThoroughSecs: 1200,
 		Assumptions: []string{"live entries are taken from the index store's GetHeaders (tombstones excluded)"},
 		Gen: func(r *rand.Rand, tier string, relax Relax) *Case {
 			c := &Case{Cfg: PlainConfig(recordSizes[r.IntN(len(recordSizes))]), P: map[string]int64{}, S: map[string]string{}}
